@@ -1539,6 +1539,10 @@ JanetFiber *janet_loop1(void) {
         if (task.fiber->gc.flags & JANET_FIBER_EV_FLAG_SUSPENDED) janet_ev_dec_refcount();
         task.fiber->gc.flags &= ~(JANET_FIBER_EV_FLAG_CANCELED | JANET_FIBER_EV_FLAG_SUSPENDED);
         if (task.expected_sched_id != task.fiber->sched_id) continue;
+        /* Everything the fiber registered before this resume belongs to a wait that is over now. A fiber that was
+         * scheduled while it was still running (ev/cancel or ev/go on itself) registers its next wait with the
+         * generation of that schedule, so the schedule alone would leave the registration live. */
+        task.fiber->sched_id++;
         Janet res;
         JanetSignal sig = janet_continue_signal(task.fiber, task.value, &res, task.sig);
         if (!janet_fiber_can_resume(task.fiber)) {
